@@ -315,6 +315,7 @@ def run_scenario(sc):
     with pnet:
         pm, pool = make_pool(cfg, rec)
         resps = {}
+        done = []      # disposed responses stay referenced by the caller until quiescence
         for st in sc["steps"]:
             op = st["op"]
             if op == "req":
@@ -364,6 +365,7 @@ def run_scenario(sc):
                 else:
                     log.append(("DISPEND", st["id"], "response", "none", "ok"))
                     obs["disps"].append({"id": st["id"], "how": st["how"], "out": "ok"})
+                done.append(r)
                 r = None
             elif op == "cut":
                 items = [c for c in list(pool.pool.queue) if c is not None and rec.sock_of(c)]
@@ -379,6 +381,7 @@ def run_scenario(sc):
         undisposed = sorted(resps)
         before = sorted(pnet.open_conns())
         resps.clear()
+        del done[:]
         gc.collect()
         items = list(pool.pool.queue)
         qi = [rec.ident(c) for c in items]
